@@ -36,6 +36,14 @@ pub fn reset() {
     NEXT_WORKER.store(0, Ordering::SeqCst);
 }
 
+static SYNC: Mutex<()> = Mutex::new(());
+
+/// Serialises an atomic operation of the epoll protocol with the event that reports it, so that the order of
+/// the log is the order of the operations themselves (hook builds only).
+pub(crate) fn sync_lock() -> std::sync::MutexGuard<'static, ()> {
+    SYNC.lock().unwrap_or_else(|e| e.into_inner())
+}
+
 pub(crate) fn next_worker_id() -> usize {
     NEXT_WORKER.fetch_add(1, Ordering::SeqCst)
 }
